@@ -352,8 +352,15 @@ def check(run: Run) -> None:
         for t in walk_no_nested(n):
             if isinstance(t, ast.Call) and ast.unparse(t.func) == "isinstance" and len(t.args) == 2:
                 order.append(ast.unparse(t.args[1]))
+    # ... or one nested loop over an ordered priority table: `for kind in TABLE: for c in chain.constraints: if isinstance(c, kind)`
+    if len(set(order)) == 1 and order:
+        outer = [x for x in walk_no_nested(cc.node) if isinstance(x, ast.For) and isinstance(x.target, ast.Name) and x.target.id == order[0] and isinstance(x.iter, ast.Name) and gm.has_const(x.iter.id)]
+        if len(outer) == 1 and any(isinstance(y, ast.For) for y in outer[0].body):
+            table = gm.const_node(outer[0].iter.id)
+            if isinstance(table, (ast.Tuple, ast.List)):
+                order = [" | ".join(ast.unparse(e) for e in r.elts) if isinstance(r, ast.Tuple) else ast.unparse(r) for r in table.elts]
     want = ["ConstConstraint", "EnumConstraint", "RegexConstraint", "TypeConstraint", "DateConstraint | Iso8601Constraint"]
-    ok = order == want
+    ok = [o.replace("(", "").replace(")", "").replace(", ", " | ") for o in order] == want
     run.instance("R13.3", gm.loc(cc.node), f"compile_chain priority {order}", ok=ok)
     if not ok:
         run.violation("R13.3", gm, cc.qualname, "priority CONST > ENUM > REGEX > TYPE > DATE/ISO8601", f"compile_chain selects members in the order {order}: a less specific member would shape the rule (e.g. TYPE[STRING] before ENUM), so the grammar generates values the ENUM/CONST of the same chain rejects")
